@@ -19,12 +19,12 @@ impl Exec for crate::q::Q {
 }
 impl Exec for f64 {
     fn exec(op: &str, f: &str, a: &[Val<Self>]) -> Option<Val<Self>> {
-        chain!(op, f, a; crate::exec_lin::exec_num, crate::exec_misc::exec_views, crate::exec_lin::exec_signed, centroid, crate::exec_lin::exec_flt_lin, crate::exec_geo::exec_flt_geo, crate::exec_misc::exec_flt_misc, crate::exec_serde::exec_serde)
+        chain!(op, f, a; crate::exec_lin::exec_num, crate::exec_misc::exec_views, crate::exec_lin::exec_signed, centroid, crate::exec_lin::exec_flt_lin, crate::exec_geo::exec_flt_geo, crate::exec_misc::exec_flt_misc, crate::exec_proj::exec_proj, crate::exec_serde::exec_serde)
     }
 }
 impl Exec for f32 {
     fn exec(op: &str, f: &str, a: &[Val<Self>]) -> Option<Val<Self>> {
-        chain!(op, f, a; crate::exec_lin::exec_num, crate::exec_misc::exec_views, crate::exec_lin::exec_signed, centroid, crate::exec_lin::exec_flt_lin, crate::exec_geo::exec_flt_geo, crate::exec_misc::exec_flt_misc, crate::exec_serde::exec_serde)
+        chain!(op, f, a; crate::exec_lin::exec_num, crate::exec_misc::exec_views, crate::exec_lin::exec_signed, centroid, crate::exec_lin::exec_flt_lin, crate::exec_geo::exec_flt_geo, crate::exec_misc::exec_flt_misc, crate::exec_proj::exec_proj, crate::exec_serde::exec_serde)
     }
 }
 macro_rules! exec_signed { ($($t:ident),+) => { $(impl Exec for $t {
